@@ -22,7 +22,7 @@ static const char * BIG[] = {"4294967297", "9007199254740993", "1844674407370955
 
 // Builds and solves one instance; everything (logic, config, solver) is local to the call.
 static int solveOne(Problem p, std::atomic<bool> * started = nullptr, std::atomic<MainSolver *> * expose = nullptr, std::atomic<int> * phase = nullptr,
-                    std::atomic<bool> * release = nullptr) {
+                    std::atomic<bool> * release = nullptr, std::string * digest = nullptr) {
     std::mt19937 rng(p.seed);
     auto below = [&](uint32_t n) { return (uint32_t)(rng() % n); };
     int kind = p.kind & 3;
@@ -76,7 +76,19 @@ static int solveOne(Problem p, std::atomic<bool> * started = nullptr, std::atomi
             PTRef atom = below(2) ? al.mkLeq(lhs, rhs) : al.mkGeq(lhs, rhs);
             if (below(4) == 0) atom = al.mkEq(lhs, rhs);
             PTRef other = al.mkLeq(xs[below(5)], cst(false));
+            if (digest) *digest += al.termToSMT2String(atom) + "\n";
             solver.addAssertion(below(3) ? al.mkOr(atom, other) : atom);
+        }
+        if (digest && big && isInt) {
+            // many more constraints are only built (not asserted): their normalised form (gcd of the coefficients, rounded
+            // bounds) is part of what a thread computes, and must not depend on what other threads do meanwhile
+            for (int i = 0; i < 60; ++i) {
+                vec<PTRef> sum;
+                for (int j = 0; j < 3; ++j) sum.push(al.mkTimes(cst(true), xs[below(5)]));
+                PTRef lhs = al.mkPlus(std::move(sum));
+                PTRef atom = below(2) ? al.mkLeq(lhs, cst(true)) : al.mkEq(lhs, cst(true));
+                *digest += al.termToSMT2String(atom) + "\n";
+            }
         }
     }
     if (started) started->store(true);
@@ -100,14 +112,15 @@ static std::string show(ThreadCase const & c) {
 
 static bool runThreads(ThreadCase const & c, bool count) {
     std::vector<int> solo;
-    for (auto const & p : c.probs) solo.push_back(solveOne(p));
+    std::vector<std::string> soloDigest(c.probs.size()), concDigest(c.probs.size());
+    for (size_t i = 0; i < c.probs.size(); ++i) solo.push_back(solveOne(c.probs[i], nullptr, nullptr, nullptr, nullptr, &soloDigest[i]));
     std::vector<int> conc(c.probs.size(), -1);
     std::vector<std::thread> ts;
     for (size_t i = 0; i < c.probs.size(); ++i) {
         ts.emplace_back([&, i]() {
             volatile unsigned spin = 0;
             for (int k = 0; k < c.spins[i]; ++k) spin = spin + 1;
-            conc[i] = solveOne(c.probs[i]);
+            conc[i] = solveOne(c.probs[i], nullptr, nullptr, nullptr, nullptr, &concDigest[i]);
         });
     }
     for (auto & t : ts) t.join();
@@ -119,6 +132,12 @@ static bool runThreads(ThreadCase const & c, bool count) {
         stats.classes["threads:" + std::to_string(c.probs.size())]++;
     }
     for (size_t i = 0; i < c.probs.size(); ++i) {
+        if (concDigest[i] != soloDigest[i]) {
+            std::ostringstream o;
+            o << "instance " << i << " (seed " << c.probs[i].seed << ", kind " << c.probs[i].kind << ") builds different terms concurrently than alone";
+            failure = o.str();
+            return false;
+        }
         if (conc[i] != solo[i]) {
             std::ostringstream o;
             o << "instance " << i << " (seed " << c.probs[i].seed << ", kind " << c.probs[i].kind << ") answers " << conc[i] << " concurrently, " << solo[i] << " alone";
@@ -207,17 +226,20 @@ int main(int argc, char ** argv) {
     if (mode == "threads") {
         ok = rc::check("solver instances in different threads answer as they do alone", [&]() {
             ThreadCase c;
-            int n = *rc::gen::inRange(2, 9);
+            // (inRange collapses towards its lower bound at small rapidcheck sizes, hence the resize; kinds are weighted
+            // towards big-coefficient integer arithmetic, the only kind that reaches the shared big-number scratch state)
+            static const int KINDS[] = {5, 5, 5, 5, 4, 4, 7, 1, 0, 2, 3, 6};
+            int n = *rc::gen::resize(100, rc::gen::inRange(2, 9));
             for (int i = 0; i < n; ++i) {
-                c.probs.push_back({*rc::gen::resize(100, rc::gen::inRange<uint32_t>(1, 1000000)), *rc::gen::inRange(0, 8)});
+                c.probs.push_back({*rc::gen::resize(100, rc::gen::inRange<uint32_t>(1, 1000000)), KINDS[*rc::gen::resize(100, rc::gen::inRange(0, 12))]});
                 c.spins.push_back(*rc::gen::resize(100, rc::gen::inRange(0, 200000)));
             }
             if (!runThreads(c, true)) { writeFile(failPath, show(c)); RC_FAIL(failure); }
         });
     } else {
         ok = rc::check("a stop request never produces a wrong answer", [&]() {
-            StopCase c{{*rc::gen::resize(100, rc::gen::inRange<uint32_t>(1, 1000000)), *rc::gen::inRange(0, 8)},
-                       *rc::gen::resize(100, rc::gen::inRange(0, 6000)), *rc::gen::inRange(0, 2) == 0};
+            StopCase c{{*rc::gen::resize(100, rc::gen::inRange<uint32_t>(1, 1000000)), *rc::gen::resize(100, rc::gen::inRange(0, 8))},
+                       *rc::gen::resize(100, rc::gen::inRange(0, 6000)), *rc::gen::resize(100, rc::gen::inRange(0, 2)) == 0};
             if (!runStop(c, true)) { writeFile(failPath, show(c)); RC_FAIL(failure); }
         });
     }
